@@ -21,6 +21,7 @@ OPS = {
     "restrict": ["restrict"], "exists": ["existential_quantification"], "forall": ["universal_quantification"],
     "deriv": ["derivative"], "subst": ["substitute"],
     "conv.ET": ["to_table", "from_expression"], "conv.TE": ["to_expression", "from_table"],
+    "limit": ["to_bdd", "from_expression"],
     "conv.EB": ["to_bdd", "from_expression"], "conv.TB": ["to_bdd", "from_table"],
     "conv.BT": ["to_table", "from_bdd"], "conv.BE": ["to_expression", "from_bdd"],
     "parse": ["py_new"], "ctor.bad": ["py_new"], "csv.from": ["from_csv_string"], "csv.to0": ["to_csv"],
@@ -92,6 +93,8 @@ def run(pid, tier, seed, ctx):
     for t in texts:
         buckets.setdefault("parse", []).append(f"C19 parse x{hexs(t)}")
     buckets["ctor.bad"] = ["C19 ctor.bad"]
+    # the one failing conversion: more variables than lib-bdd supports (exception kind must be RuntimeError)
+    buckets["limit"] = ["C19 limit 65534", "C19 limit 65536", "C19 limit 70000"]
     for n in ["a", "x_10", "é", "-"]:
         buckets.setdefault("var", []).append(f"C19 var x{hexs(n)}")
         for b in "01":
